@@ -175,7 +175,6 @@ Proof.
     destruct (IHm (S k) t1 rest' os' ds' ps' s3 Ht' Ho' Hd' Hp') as (s' & B1 & B2 & B3 & B4);
       try (simpl in *; lia).
     exists s'. split; [exact B1|]. simpl fold_steps. simpl steps_events.
-    rewrite Es. simpl fst. simpl snd.
     assert (S3 : sv_state s3 = st') by (subst s3; simpl; rewrite A2; reflexivity).
     split; [now rewrite B2, S3|]. split.
     + intros _. destruct m.
@@ -183,8 +182,7 @@ Proof.
         exists h. subst s3. simpl. exact A3.
       * apply B3. discriminate.
     + rewrite B4, S3. subst s3. simpl. rewrite A4, A2, A3. subst s1. simpl.
-      unfold step_event. rewrite !rev_app_distr. simpl. rewrite <- !app_assoc. simpl.
-      rewrite rev_app_distr. simpl. rewrite <- !app_assoc. reflexivity.
+      unfold step_event. rewrite !rev_app_distr. simpl. rewrite <- !app_assoc. simpl. reflexivity.
 Qed.
 End Boundary.
 
@@ -219,7 +217,7 @@ Proof.
       simpl in F. destruct F as (F1 & F2 & F3).
       eexists. split; [reflexivity|]. rewrite F1, F3. simpl. split; [reflexivity|].
       unfold callback_events, initial_ham. rewrite Ec. simpl.
-      rewrite rev_app_distr. simpl. rewrite <- !app_assoc. reflexivity. }
+      rewrite <- !app_assoc. reflexivity. }
   destruct I as (s1 & I1 & I2 & I3). rewrite I1. simpl. rewrite Ho. simpl length.
   destruct (steps_from_spec P tn Hlast Hnz (S (length os)) 0 t0 (t1 :: rest) (o :: os) (d :: ds) (p :: ps) s1)
     as (sf & B1 & B2 & _ & B4); simpl; try congruence; try (f_equal; congruence).
@@ -258,8 +256,7 @@ Lemma initial_events_no_step : forall P tn t0 t1 o d p s0,
   flat_map step_of (initial_events P tn t0 t1 o d p s0) = [].
 Proof.
   intros. unfold initial_events. destruct (callbacks_at P (a_div ar t0 tn)) eqn:E; [reflexivity|].
-  simpl. unfold callback_events. rewrite E. simpl.
-  induction l; simpl; auto.
+  simpl. apply flat_map_step_callbacks.
 Qed.
 
 Lemma expected_steps_length : forall P rest t0 os ds ps s,
@@ -321,6 +318,22 @@ Proof.
   destruct os; [discriminate|]. destruct ds; [discriminate|]. destruct ps; [discriminate|].
   simpl. rewrite !flat_map_app, query_callbacks. simpl. f_equal.
   simpl in *. rewrite IHrest by lia. reflexivity.
+Qed.
+
+(* the per-interval maps s |-> stepper(...)(s), in order; the final state is their composition *)
+Fixpoint step_funs (P : params) (t0 : A) (rest : list A) (os ds ps : list Row) : list (St -> St) :=
+  match rest, os, ds, ps with
+  | t1 :: rest', o :: os', d :: ds', p :: ps' =>
+    (fun s => fst (do_step P t0 t1 o d p s)) :: step_funs P t1 rest' os' ds' ps'
+  | _, _, _, _ => []
+  end.
+
+Lemma fold_steps_funs : forall P rest t0 os ds ps s,
+  fold_steps P t0 rest os ds ps s = fold_left (fun s f => f s) (step_funs P t0 rest os ds ps) s.
+Proof.
+  induction rest; intros; simpl; [reflexivity|].
+  destruct os; [reflexivity|]. destruct ds; [reflexivity|]. destruct ps; [reflexivity|].
+  simpl. apply IHrest.
 Qed.
 
 End Proofs.
